@@ -13,11 +13,11 @@ import numpy as np
 from .. import gen, model as M, refmodel as R
 from ..runner import Skip
 
-RULE = ("cases from rng(seed, 12, 0, i): graphs of all pose types (trajectory and cluster graphs incl. custom edges), converging, diverging (far starts) and stationary "
+RULE = ("cases from rng(seed, 12, 0, i): graphs of all pose types (trajectory and cluster graphs incl. custom edges), converging, diverging (far starts), singular (an unconstrained vertex: chi2 becomes NaN) and stationary "
         "(all vertices fixed / exactly consistent measurements / linear graph at its optimum); tol in {0, 1e-12..1e-1}, max_iter 1..30 (quick: ..12), verbose in {True, False}; "
         "one call vs single-iteration driving; random (all for n<=5) compositions k1+..+km=n. distinct = fingerprint(spec, tol, max_iter); non-trivial = run with >= 2 iterations.")
 REQ = ["eval:stopping-rule", "eval:report-chi2-sequence", "eval:final-state-is-trajectory-state", "eval:final-chi2-is-calc_chi2", "eval:verbose-does-not-alter", "eval:split-run-reproduces",
-       "eval:printed-table-matches-report", "class:early_stop", "class:max_iter_stop", "class:stationary", "class:diverging", "class:tol=0", "class:converged_at_max_iter"]
+       "eval:printed-table-matches-report", "class:early_stop", "class:max_iter_stop", "class:stationary", "class:diverging", "class:tol=0", "class:converged_at_max_iter", "class:singular", "class:nan_chi2_in_trace"]
 PLAN = {
     "quick": {"cases": 1200, "soft_s": 80, "min_nontrivial": 300, "require": REQ},
     "thorough": {"cases": 48000, "soft_s": 1400, "min_nontrivial": 10000, "require": REQ},
@@ -59,7 +59,7 @@ def same_state(sa, sb, rel=1e-12):
 
 
 def make_graph(rng, ctx):
-    kind = rng.choice(["traj", "cluster", "stationary_fixed", "stationary_consistent", "stationary_linear_opt", "diverging"], p=[0.3, 0.2, 0.1, 0.12, 0.08, 0.2])
+    kind = rng.choice(["traj", "cluster", "stationary_fixed", "stationary_consistent", "stationary_linear_opt", "diverging", "singular"], p=[0.27, 0.18, 0.1, 0.12, 0.08, 0.15, 0.1])
     k = str(rng.choice(R.KINDS))
     if kind == "traj":
         spec = gen.trajectory_graph(rng, k, int(rng.integers(3, 10)), n_loops=int(rng.integers(0, 3)), n_lm=int(rng.integers(0, 3)), meas_t=0.05, meas_r=0.02, init_t=0.2, init_r=0.1)
@@ -81,6 +81,12 @@ def make_graph(rng, ctx):
         for v, p in zip(spec["vertices"], M.snapshot_poses(g)):
             v["pose"] = p
         ctx.count("class:stationary")
+    elif kind == "singular":
+        # an unconstrained free vertex: the normal equations are singular, the solver returns NaN, chi2 becomes NaN
+        spec, _ = gen.cluster_graph(rng, size=(2, 4), weird_ids=False)
+        kk = str(rng.choice(R.KINDS))
+        spec["vertices"].append({"id": 10 ** 6, "kind": kk, "pose": gen.mild_pose(rng, kk), "fixed": False})
+        ctx.count("class:singular")
     else:
         spec = gen.trajectory_graph(rng, str(rng.choice(["se2", "se3"])), int(rng.integers(3, 8)), n_loops=2, n_lm=1, meas_t=0.05, meas_r=0.02,
                                     init_t=float(rng.uniform(1, 20)), init_r=float(rng.uniform(0.8, 3)))
@@ -135,6 +141,8 @@ def run_case(ctx, i, rng):
                           feats, {"initial": r.initial_chi2, "final": r.final_chi2, "trace": chi[-2:]}, case)
     except Exception as ex:
         raise Skip("trajectory driving raised " + type(ex).__name__)
+    if any(c != c for c in chi):
+        ctx.count("class:nan_chi2_in_trace")
     stop, conv, nres = rule_model(chi, tol, max_iter)
     amb = ambiguous(chi, tol, min(stop + 1, max_iter))
     # --- the real single call
